@@ -163,6 +163,11 @@ def sym_if(c, a, b):
             return SymComplex(sym_if(c, a.re, b.re), sym_if(c, a.im, b.im))
         if isinstance(a, SymBool) or isinstance(b, SymBool):
             return SymBool(z3.If(ce, SymBool._b(a), SymBool._b(b)))
+        # np.where(x == 0, np.inf, x): the same divisor idiom as `x[x == 0] = np.inf` (InfOr is defined below)
+        if isinstance(a, (float, np.floating)) and np.isinf(a) and a > 0:
+            return InfOr(SymBool(ce), b)
+        if isinstance(b, (float, np.floating)) and np.isinf(b) and b > 0:
+            return InfOr(SymBool(z3.Not(ce)), a)
         ea, eb = _same_sort(lift(_coerce(a)), lift(_coerce(b)))
         return Sym(z3.If(ce, ea, eb))
     return a if c else b
@@ -344,6 +349,11 @@ class SymArray(np.ndarray):
             if outs is not None:
                 kwargs["out"] = outs
             res = getattr(uf, method)(*plain, **kwargs)
+            if method == "reduce" and ufunc in (np.logical_and, np.logical_or, np.bitwise_and, np.bitwise_or) and isinstance(res, np.ndarray) and res.ndim >= 1 \
+                    and all(isinstance(v, (SymBool, bool, np.bool_)) for v in res.reshape(-1)):
+                # `np.logical_and.reduce(inside, axis=1)`: a row mask, used next to select rows of (possibly concrete) arrays, which numpy can only do
+                # with a real boolean array: every truth value is decided (one path per outcome), exactly as `keep &= mask` on a concrete array is
+                return np.frompyfunc(lambda v: bool(v), 1, 1)(np.asarray(res).view(np.ndarray)).astype(np.bool_)
         else:
             raise Unsupported(f"ufunc {ufunc.__name__} on a symbolic array")
         if outs is not None and ufunc is not np.matmul:
@@ -545,7 +555,24 @@ class SymArray(np.ndarray):
     def __getitem__(self, key):
         if isinstance(key, np.ndarray) and key.dtype == object and key.size and _is_boolmask(key):
             return MaskedSelection(self, _obj(key))
-        return super().__getitem__(key)
+        return super().__getitem__(_concrete_index(key))
+
+
+def _concrete_index(key):
+    """integer index arrays holding symbolic integers (`table[iz, iy, ix]` with rounded symbolic positions): numpy needs real integers, so every
+    index is decided (one path per value, bounded by the caller's assumptions), as it is for a tuple of symbolic scalars through __index__"""
+    import operator
+
+    def one(k):
+        if isinstance(k, np.ndarray) and k.dtype == object and k.size and not _is_boolmask(k):
+            return np.frompyfunc(operator.index, 1, 1)(k.view(np.ndarray)).astype(np.intp)
+        if isinstance(k, np.ndarray) and k.dtype == object and k.size == 0:
+            return k.astype(np.intp)
+        return k
+
+    if isinstance(key, tuple):
+        return tuple(one(k) for k in key)
+    return one(key)
 
 
 def _is_boolmask(key):
